@@ -73,6 +73,9 @@ Inductive tcase :=
 | TLat (t : target) (c : call) (o : res) (unchanged : bool)
 (* forwarding transparency, implementation against implementation: canonical observations of the
    same history applied directly and through the forwarding proxy *)
+(* (one step is exempted by the harness because the SPEC itself makes the proxy differ: defineProperty on an
+   Array's "length" with a value v, not SameValue to ToUint32(v), that ends up non-writable - 10.4.2.4 stores
+   ToUint32(v), 10.5.6 step 16 compares the original v; the ordinary-object theorems are unaffected) *)
 | THist (direct proxied : list N)
 (* the same, checked against the target model: history on a modelled plain object; observations on
    the proxied object and its final state *)
